@@ -105,6 +105,8 @@ def run(ctx, chk):
              'the callee expects that enumeration and a UriBool where it expects a UriBool: the compiler converts one into the other '
              'silently, and a swapped pair makes keys and values be unescaped under different options', floor=8)
     rule_flag_forwarding(ctx, chk)
+    chk.rule('dissect-unescape', 'uriAppendQueryItem unescapes every key / value text it copies, on every success path, with the '
+             'caller\'s plus-to-space and line-break options', floor=2)
     chk.rule('item-count', 'uriAppendQueryItem increments *itemCount exactly on the paths that leave a node linked', floor=4)
     INTMAX = prog.macros.get('INT_MAX', 2147483647)
     toolarge = prog.macros.get('URI_ERROR_OUTPUT_TOO_LARGE')
@@ -447,6 +449,9 @@ def _item_count(ctx, chk, suf):
         if mc and mc[0] == 'free':
             st.events.append(('free', args[1] if len(args) > 1 else None))
             return Lin.const(0)
+        if call_target(i) == 'uriUnescapeInPlaceEx' + suf and len(args) == 3:
+            st.events.append(('unescaped', args[0].base if isinstance(args[0], Ptr) else None, repr(args[1]), repr(args[2]), i.loc))
+            return args[0]
         return None
     se.on_call = on_call
     st = PState()
@@ -470,6 +475,37 @@ def _item_count(ctx, chk, suf):
             bad = (loc, 'item counter changes by %r on a path that %s a node (returns %s)' % (delta, 'links' if linked else 'does not link', rv))
         else:
             n_ok += 1
+    # every text copied into an item is unescaped with the caller's options (what the composer escaped must be undone here)
+    opt = {}
+    for pn in f.params:
+        ty = f.param_types.get(pn) or ''
+        if 'UriBool' in ty:
+            opt['plus'] = pn + '0'
+        if 'UriBreakConversion' in ty:
+            opt['brk'] = pn + '0'
+    if len(opt) != 2:
+        raise AnalysisBroken('%s: option parameters not recognised' % name)
+    ncopy = 0
+    badu = None
+    for (s2, v, loc) in se.paths:
+        rv = v.c if isinstance(v, Lin) and v.is_const() else None
+        if rv != 1:
+            continue
+        evs = s2.events
+        for k, ev in enumerate(evs):
+            if ev[0] == 'store-bytes' and str(ev[1]).startswith('blk'):
+                ncopy += 1
+                later = [u for u in evs[k + 1:] if u[0] == 'unescaped' and u[1] == ev[1]]
+                if not later:
+                    badu = badu or (ev[4], 'copies text into block %s and returns success without unescaping it' % ev[1])
+                elif (later[0][2], later[0][3]) != (opt['plus'], opt['brk']):
+                    badu = badu or (later[0][4], 'unescapes the copied text with options (%s, %s) instead of the caller\'s (%s, %s)'
+                                    % (later[0][2], later[0][3], opt['plus'], opt['brk']))
+    if ncopy:
+        # (no copy in this function: the text is duplicated in a helper - the rule's floor then sends the check to the inlined view)
+        chk.add('dissect-unescape', 'unescape:%s' % (name if badu is None else base_name(name)), badu is None, badu[0] if badu else f.loc,
+                '%s %s' % (name, badu[1] if badu else 'unescapes every copied key / value text with the caller\'s plus and line-break options (%d copies on '
+                           'success paths)' % ncopy), func=name)
     key = 'itemcount:%s' % base_name(name)
     if bad:
         chk.bad('item-count', key, bad[0], '%s %s' % (name, bad[1]), func=name)
